@@ -103,18 +103,25 @@ def run(ctx):
     ctx.exhaustive = True
     # ---- every case through the real codec ----
     for c in cases:
-        rows = [{to_py(k): to_py(v) for k, v in pairs} for pairs in c["rows"]]
         exp = expect_rows(c)
         ctx.case(json.dumps(c["rows"], sort_keys=True))
-        sig = "codec"
-        try:
-            lines = list(TransactionEncode(None).filter([["T0", {}], ["T4", (0, 0, 0), rows]]))
-            res = TransactionResult().filter(TransactionDecode().filter(lines))
-            got = int_rows(res)
-        except Exception as e:
-            ctx.violation(sig + ":raises", "encode/decode of evaluator rows %r raised %s: %s" % (rows, type(e).__name__, str(e)[:120]), dict(rows=c["rows"])); continue
-        if len(got) != len(exp) or not all(same(g, e) for g, e in zip(got, exp)):
-            ctx.violation(sig + ":differs", "rows %r read back as %r, expected %r" % (rows, got, exp), dict(rows=c["rows"], expected=c["expected"]))
+        # a row is a mapping: the order in which an evaluator happened to insert its keys is not part of its meaning,
+        # so every case is replayed with the spec's key order and with each row's keys rotated by its position
+        for order in ("as-listed", "rotated"):
+            rows = []
+            for ri, pairs in enumerate(c["rows"]):
+                ps = list(pairs)
+                if order == "rotated" and ps: k = (ri + 1) % len(ps); ps = ps[k:] + ps[:k]
+                rows.append({to_py(k): to_py(v) for k, v in ps})
+            sig = "codec" if order == "as-listed" else "codec:key-order"
+            try:
+                lines = list(TransactionEncode(None).filter([["T0", {}], ["T4", (0, 0, 0), rows]]))
+                res = TransactionResult().filter(TransactionDecode().filter(lines))
+                got = int_rows(res)
+            except Exception as e:
+                ctx.violation(sig + ":raises", "encode/decode of evaluator rows %r raised %s: %s" % (rows, type(e).__name__, str(e)[:120]), dict(rows=c["rows"], order=order)); break
+            if len(got) != len(exp) or not all(same(g, e) for g, e in zip(got, exp)):
+                ctx.violation(sig + ":differs", "rows %r read back as %r, expected %r" % (rows, got, exp), dict(rows=c["rows"], expected=c["expected"], order=order)); break
     # ---- a sample through whole experiments, five ways ----
     d = os.path.join(ctx.scratch, "exp"); os.makedirs(d, exist_ok=True)
     sample = rng.sample(cases, min(len(cases), ctx.pick(120, 1500)))
